@@ -82,9 +82,11 @@ class MergeExtractor(BaseExtractor):
                                         if column_reference_optional := e.get_child(
                                             "column_reference"
                                         ):
-                                            if cqt := extract_column_qualifier(
-                                                column_reference_optional
-                                            ):
+                                            if (
+                                                cqt := extract_column_qualifier(
+                                                    column_reference_optional
+                                                )
+                                            ) and j < len(insert_columns):
                                                 src_col = Column(cqt.column)
                                                 src_col.parent = direct_source
                                                 holder.add_column_lineage(
